@@ -1,4 +1,5 @@
 import OlVerif.Lower.Stmt
+import OlVerif.Order.Proof
 namespace OlVerif.C07
 /-- a chained assignment stores the value in a temporary first: the value expression occurs
     exactly once in the emitted list, at its head -/
@@ -18,4 +19,61 @@ theorem chained_value_once (cx : Ctx) (t1 t2 : Expr) (ts : List Expr) (value : E
     · rename_i r hr
       simp only [pure, Except.pure, Except.ok.injEq, Prod.mk.injEq] at h
       exact ⟨_, v, _, h.1.symm, hv⟩
+
+/-! ### evaluation order of the lowered statements (M-ORDER, `Order/Trace.lean`)
+
+`tr ρ e` is the list of probes the expression `e` evaluates, in Python's evaluation order, under
+the truth-value oracle `ρ`; a probe `P k` stands for a source subexpression with a visible effect.
+Each theorem: for a statement whose subexpressions are probes, converted at module level (names
+are spelled as plain names), the expressions emitted for it - evaluated one after the other, which
+is what both wrappers do (C01) - evaluate every probe exactly once and in the order Python's
+reference semantics gives for the source statement; for every oracle, state and name supply. -/
+
+/-- assignment: value, then targets left to right (objects before indexes before bounds),
+    for any number of chained targets and any nesting of patterns -/
+theorem assign_order (ρ : Expr → Bool) (cx : Ctx) (hn : cx.nsp.kind = .module) (ts : List Tgt) (hts : ts ≠ [])
+    (v : Nat) (st : St) (es : List Expr) (st' : St)
+    (h : lowerStmt cx (.assign (Tgt.toExprs ts) (P v)) st = .ok (es, st')) :
+    trL ρ es = v :: Tgt.orders ts :=
+  OlVerif.assign_order ρ cx hn ts hts v st es st' h
+
+/-- annotated assignment with a value: value, then the target's parts -/
+theorem annAssign_order (ρ : Expr → Bool) (cx : Ctx) (hn : cx.nsp.kind = .module) (t : Tgt) (ann : Expr)
+    (v : Nat) (st : St) (es : List Expr) (st' : St)
+    (h : lowerStmt cx (.annAssign t.toExpr ann (some (P v))) st = .ok (es, st')) :
+    trL ρ es = v :: t.order :=
+  OlVerif.annAssign_order ρ cx hn t ann v st es st' h
+
+/-- augmented assignment, every operator, the three target kinds: each part exactly once, in
+    Python's order, whichever of the in-place / fallback branches runs -/
+theorem augAssign_order (ρ : Expr → Bool) (cx : Ctx) (hn : cx.nsp.kind = .module) (op : BinOpK) (v : Nat)
+    (st : St) (es : List Expr) (st' : St) :
+    (∀ x, lowerStmt cx (.augAssign (.name x) op (P v)) st = .ok (es, st') → trL ρ es = [v]) ∧
+    (∀ o a, lowerStmt cx (.augAssign (.attribute (P o) a) op (P v)) st = .ok (es, st') → trL ρ es = [o, v]) ∧
+    (∀ o i, lowerStmt cx (.augAssign (.subscript (P o) (P i)) op (P v)) st = .ok (es, st') → trL ρ es = [o, i, v]) :=
+  ⟨fun x h => augAssign_name_order ρ cx hn x op v st es st' h,
+   fun o a h => augAssign_attr_order ρ cx hn o a op v st es st' h,
+   fun o i h => augAssign_sub_order ρ cx hn o i op v st es st' h⟩
+
+/-- expression statement -/
+theorem expr_order (ρ : Expr → Bool) (cx : Ctx) (hn : cx.nsp.kind = .module) (v : Nat) (st : St)
+    (es : List Expr) (st' : St) (h : lowerStmt cx (.expr (P v)) st = .ok (es, st')) : trL ρ es = [v] :=
+  OlVerif.expr_order ρ cx hn v st es st' h
+
+/-- function definition: decorator expressions top to bottom, positional defaults, keyword-only
+    defaults; nothing of the body; any signature, any number of decorators -/
+theorem functionDef_order (ρ : Expr → Bool) (cx : Ctx) (hn : cx.nsp.kind = .module)
+    (name : String) (po as : List String) (va : Option String) (ko : List String) (kd : List (Option Nat))
+    (kw : Option String) (ds : List Nat) (body : List Stmt) (decos : List Nat) (lineno : Nat)
+    (st : St) (es : List Expr) (st' : St)
+    (h : lowerStmt cx (.functionDef name (.mk po as va ko (kd.map (Option.map P)) kw (ds.map P)) body (decos.map P) lineno) st
+      = .ok (es, st')) :
+    trL ρ es = decos ++ ds ++ optOrder kd :=
+  OlVerif.functionDef_order ρ cx hn name po as va ko kd kw ds body decos lineno st es st' h
+
+/-- non-vacuity: `(a, (o1.x, *r)), d2[3:4] = v0` - the reference order is 0, 1, 2, 3, 4 -/
+example : (0 : Nat) :: Tgt.orders [.tuple [.tuple [.name "a", .tuple [.attr 1 "x", .star (.name "r")]], .subSlice 2 (some 3) (some 4) none]]
+    = [0, 1, 2, 3, 4] := by
+  simp [Tgt.orders, Tgt.order]
+
 end OlVerif.C07
